@@ -13,7 +13,7 @@ import (
 func main() {
 	repo := flag.String("repo", "/repo", "repository root")
 	out := flag.String("out", "", "output directory for rewritten files + overlay.json")
-	mode := flag.String("mode", "base", "base | sched | schedrace")
+	mode := flag.String("mode", "base", "base | sched | schedfine")
 	flag.Parse()
 	if *out == "" {
 		fmt.Fprintln(os.Stderr, "need -out")
@@ -27,8 +27,8 @@ func main() {
 	// all modes: skiplist tower heights come from the harness
 	must(rewriteImports(filepath.Join(*repo, "skiplist/map_generic.go"), filepath.Join(*out, "skiplist_map_generic.go"),
 		map[string][2]string{"math/rand": {"rand", "verif/shim/vrand"}}, ov))
-	if *mode == "sched" || *mode == "schedrace" {
-		must(rewriteSched(*repo, *out, *mode == "schedrace", ov))
+	if *mode == "sched" || *mode == "schedfine" {
+		must(rewriteSched(*repo, *out, *mode == "schedfine", ov))
 	}
 	b, _ := json.MarshalIndent(map[string]any{"Replace": ov}, "", " ")
 	must(os.WriteFile(filepath.Join(*out, "overlay.json"), b, 0o644))
